@@ -342,6 +342,18 @@ def gen_messages(run, n_total):
             mask = i % (1 << bits) if i < 2 * (1 << bits) else run.rng.randrange(1 << bits)
             desc, vals = getattr(g, fn)(mask)
             out.append((t, desc, vals))
+    # strings beyond ciborium's 4096-byte scratch buffer (the Bytes and String visitors take them;
+    # authenticator data and map keys do not, see Serde.v)
+    for n in (4096, 4097):
+        desc, vals = g.mc_req(0)
+        big = g.nbytes(n)
+        desc["client_data_hash"] = big.hex(); vals[0] = B(big)
+        desc["rp"] = {"id": "r" * n, "name": None}; vals[1] = M([(T("id"), T("r" * n))])
+        out.append(("mc_req", desc, vals))
+    desc, vals = g.ga_resp(0)
+    big = g.nbytes(5000)
+    desc["signature"] = big.hex(); vals[2] = B(big)
+    out.append(("ga_resp", desc, vals))
     return out
 
 # --------------------------------------------------------------------------------------------
@@ -631,6 +643,14 @@ def check(run):
         thms, assum = common.props_check(PROP)
     except common.Tie as t:
         broken.append(t)
+    coqchk = "not run (quick tier)"
+    if run.tier != "quick" and not broken:
+        with common.Lock("coq", shared=True):
+            rc, out = common.sh(["coqchk", "-silent", "-o", "-Q", "theories", "PK", "PK.Props.C13"], cwd=common.COQ, timeout=1800)
+        if rc != 0 or "Axioms: <none>" not in out:
+            broken.append(common.Tie("coqchk does not accept the compiled closure of Props/C13 without axioms", out[-2000:]))
+        else:
+            coqchk = "coqchk -o: accepted, Axioms: <none>"
     binary = common.harness_build("ctapmsg")
     quick = run.tier == "quick"
     g = Gen(run.rng)
@@ -750,7 +770,8 @@ def check(run):
         "trusted_base": ["Coq 8.16.1 kernel, vm_compute", "translators/ctap_schema.py, status.py, webauthn_error.py",
                          "Wire/CtapSpec.v (hand transcription of the CTAP member numbers)", "Lib/Cbor.v as the model of ciborium",
                          "correspondence harness (pkharness ctapmsg) + driver/c13.py",
-                         "Print Assumptions: %d closed under the global context, axioms: %s" % (assum["closed"], assum["with_allowed_axioms"] or "none")],
+                         "Print Assumptions: %d closed under the global context, axioms: %s" % (assum["closed"], assum["with_allowed_axioms"] or "none"),
+                         "coqchk: " + coqchk],
         "theorems": thms,
         "evaluations": len(terms), "distinct_nontrivial": len(sig),
         "rule": "ser: for each of the 6 integer-keyed messages every presence mask of the optional members twice, then random masks; byte strings "
